@@ -56,6 +56,9 @@ def components_used(expr):
 
 
 def run(repo, R):
+    R.rule("PITFALL", "no approximate comparison of centre coordinates selects between formulas (tolerances relative to the coordinate break translation invariance)")
+    from ..pitfalls import report as _pitfalls
+    _pitfalls(repo, R, ["gbasis.integrals", "gbasis.evals", "gbasis.base_one", "gbasis.base_two_symm", "gbasis.base_two_asymm", "gbasis.base_four_symm"], kinds=("TOL-GEOM",))
     R.rule("TRANS", "every start value and every recursion coefficient is unchanged when all centres (shells, charges, moment origin) are shifted together")
     R.rule("STABLE", "centres enter start values/coefficients through differences only (no cancellation of terms quadratic in absolute positions)")
     R.rule("PASS", "the written-out x, y and z passes of the one- and two-electron recursions are images of each other under the coordinate map")
